@@ -10,7 +10,7 @@
   makes the corresponding `decide` fail.
 -/
 import Golib.Gen.C16
-import Golib.ZipSender.Facts
+import Golib.ZipSender.FactsLoop
 
 namespace C16Gen
 open ZipSender
@@ -53,5 +53,53 @@ theorem handover_owned_agrees :
 theorem run_loop_agrees :
     Gen.C16.runDoneDrains = Variant.fixed.drainOnStop ∧ Gen.C16.runDoneFlushes = true ∧
     Gen.C16.runIdleFlushes = true := by decide
+
+/-- D69 repaired: ApplyConfig replaces the settings under `settingsMutex`, and every other reader
+    (the background loop, Append, doZip, SendDirect) goes through a getter that takes the read lock —
+    no unsynchronised access to the four settings is left (the race detector run of the harness is the
+    dynamic counterpart) -/
+theorem settings_guarded : Gen.C16.applyConfigLocks = true ∧ Gen.C16.unguardedSettingReads = [] := by decide
+
+/-! ### interpreted obligations: the transcribed statements are given their semantics
+    (`execR`, `execS` of Golib.ZipSender.FactsLoop) and are the model's functions for all inputs -/
+
+/-- the transcribed body of `run()` is the reference loop body … -/
+theorem run_loop_interpreted : Gen.C16.runIR = refRun := by decide
+
+variable {ρ : Type}
+
+/-- … so executing the source's Done branch *is* the model's `stop` (drain, last flush, return) … -/
+theorem run_done_is_stop (Z : Zip) (C : Codec ρ) (s : State ρ) (hs : s.stopped = false) :
+    execR .fixed Z C none Gen.C16.runIR.done s = ((stop .fixed Z C s).1, (stop .fixed Z C s).2, true) := by
+  rw [run_loop_interpreted]; exact stop_is_execR .fixed Z C s hs
+
+/-- … executing its "GetTimeout returned a record" branch is the model's `step` on a non-empty queue … -/
+theorem run_got_is_step (Z : Zip) (C : Codec ρ) (s : State ρ) (r : ρ) (q : List ρ)
+    (hs : s.stopped = false) (hq : s.queue = r :: q) :
+    execR .fixed Z C (some r) Gen.C16.runIR.got { s with queue := q } =
+      ((step .fixed Z C s).1, (step .fixed Z C s).2, false) := by
+  rw [run_loop_interpreted]; exact step_got_is_execR .fixed Z C s r q hs hq
+
+/-- … and its else branch (the idle timeout) is `step` on an empty queue; the timeout handed to
+    GetTimeout is the waiting time in force -/
+theorem run_idle_is_step (Z : Zip) (C : Codec ρ) (s : State ρ) (hs : s.stopped = false) (hq : s.queue = []) :
+    execR .fixed Z C none Gen.C16.runIR.idle s = ((step .fixed Z C s).1, (step .fixed Z C s).2, false) ∧
+    Gen.C16.runIR.timeout = .maxWait := by
+  rw [run_loop_interpreted]; exact ⟨step_idle_is_execR .fixed Z C s hs hq, rfl⟩
+
+/-- the transcribed tail of `sendAndClear` (hand-over, error branch, the three resets) is the
+    reference tail … -/
+theorem send_tail_interpreted : Gen.C16.sendTail = refTail := by decide
+
+/-- … the model's flush is its semantics … -/
+theorem sendAndClear_is_source_tail (Z : Zip) (C : Codec ρ) (s : State ρ) (h : s.bufLen ≠ 0) :
+    (sendAndClear .fixed Z C s).1 =
+      execS C (s.answers.headD true) Gen.C16.sendTail { s with answers := s.answers.tail } := by
+  rw [send_tail_interpreted]; exact sendAndClear_is_execS .fixed Z C s h
+
+/-- … and that semantics does not look at the client's answer: a hand-over is final -/
+theorem handover_final_in_source (C : Codec ρ) (s : State ρ) (ok ok' : Bool) :
+    execS C ok Gen.C16.sendTail s = execS C ok' Gen.C16.sendTail s := by
+  rw [send_tail_interpreted]; exact refTail_ignores_answer C s ok ok'
 
 end C16Gen
